@@ -170,11 +170,24 @@ def directed_hwopt(rnd):
     return "\n".join(lines) + "\n", 8
 
 
+def directed_romdata(rnd):
+    """a program that reads words of its ROM data section (they lie behind the program in the ROM module)"""
+    vals = [rnd.randrange(1, 250) for _ in range(3)]
+    lines = ["%section code .romtext iomode:async", "  entry _start", "_start:", "  mov r3, i0",
+             "  mov r1, rom:b", "  mov r0, rom:[r1]", "  mov o0, r0", "  mov r1, rom:c", "  mov r2, rom:[r1]", "  add r0, r2", "  mov o0, r0", "  j _start", "%endsection",
+             "%section consts .romdata", "  a db %s" % hex(vals[0]), "  b db %s" % hex(vals[1]), "  c db %s" % hex(vals[2]), "%endsection",
+             "%meta cpdef cpu romcode:code, romdata:consts",
+             "%meta iodef a type:io", "%meta ioatt a cp:bm, type:input, index:0", "%meta ioatt a cp:cpu, type:input, index:0",
+             "%meta iodef b type:io", "%meta ioatt b cp:cpu, type:output, index:0", "%meta ioatt b cp:bm, type:output, index:0",
+             "%meta bmdef global registersize:8"]
+    return "\n".join(lines) + "\n", 8
+
+
 def hwopt_part(res, rnd, a):
     """enabling a hardware optimisation derived from the program never changes the behaviour: the same BASM source rendered
     plainly and with onlydestregs, both run under Vlog.Sem and compared with the simulator at retire points"""
     n = 6 if a.tier == "quick" else 60
-    srcs = [directed_hwopt(rnd), directed_hwopt(rnd)] + [gen_basm(rnd) for _ in range(n)]
+    srcs = [directed_hwopt(rnd), directed_hwopt(rnd), directed_romdata(rnd)] + [gen_basm(rnd) for _ in range(n)]
     ticks = 40
     inval = [rnd.randrange(1, 200) for _ in srcs]
     go = simlib.run_sims([{"bm": {"basm": s, "nodyn": True}, "env": [{"in": [[v, 1]], "outrecv": [-1]}] * ticks, "ticks": ticks}
